@@ -301,6 +301,9 @@ pub fn str_to_dec(lit: &str) -> Result<(i128, isize), ParseDecimalError> {
             if exp_is_negative {
                 exp = -exp;
             }
+            if n_exp_digits == 0 {
+                return Err(ParseDecimalError::Invalid);
+            }
             if n_exp_digits > 2 {
                 return Err(ParseDecimalError::FracDigitLimitExceeded);
             }
